@@ -502,6 +502,15 @@ func (f *flakyStore) LoadLatest(ctx context.Context, id string) (*appencryption.
 // the metastore alternates between healthy and failing. Every request must get exactly one response: the right
 // answer, or an error response; the process must survive.
 func faultyBackendStreams(t *testing.T, r *ev.Run) {
+	// every round is a cold start: a new session factory (fresh zero-value secret factory, empty caches), a new server
+	// and eight streams whose first operations arrive together
+	rounds := ev.Pick(10, 80)
+	for round := 0; round < rounds && r.Violations() == 0; round++ {
+		faultyBackendRound(t, r, round)
+	}
+}
+
+func faultyBackendRound(t *testing.T, r *ev.Run, round int) {
 	crypto := aead.NewAES256GCM()
 	static, err := kms.NewStatic("thisIsAStaticMasterKeyForTesting", crypto)
 	if err != nil {
@@ -525,8 +534,7 @@ func faultyBackendStreams(t *testing.T, r *ev.Run) {
 	}
 	defer conn.Close()
 	client := pb.NewAppEncryptionClient(conn)
-	rounds := ev.Pick(4, 60)
-	for round := 0; round < rounds && r.Violations() == 0; round++ {
+	{
 		journal(fmt.Sprintf("C19 faulty-backend round %d", round))
 		ms.failing.Store(false)
 		var wg sync.WaitGroup
